@@ -1,6 +1,7 @@
 package scen
 
 import (
+	"context"
 	"fmt"
 	"time"
 
@@ -25,6 +26,7 @@ type c8Handler struct {
 	addOut   bool // middleware that adds an output (only interesting on no-publisher handlers)
 	outN     map[string]int  // uuid -> number of outputs
 	passSelf map[string]bool // uuid -> return the consumed object itself as first output
+	detach   map[string]bool // uuid -> the passed-on consumed object gets a fresh background context first
 	// parkConsumed: the consumed object is kept in a shared list; reuseParked: the second output is an object parked by another handler
 	parkConsumed map[string]bool
 	reuseParked  map[string]bool
@@ -67,7 +69,7 @@ func c08Body(r *Run) {
 	ownerPtr := map[*message.Message]*c8Handler{} // the returned objects themselves (UUIDs of passed-on consumed messages may repeat)
 	var parked []c8Parked
 	for i := 0; i < nH; i++ {
-		h := &c8Handler{name: fmt.Sprintf("handler-%d", i), outN: map[string]int{}, passSelf: map[string]bool{}, parkConsumed: map[string]bool{}, reuseParked: map[string]bool{},
+		h := &c8Handler{name: fmt.Sprintf("handler-%d", i), outN: map[string]int{}, passSelf: map[string]bool{}, detach: map[string]bool{}, parkConsumed: map[string]bool{}, reuseParked: map[string]bool{},
 			invoked: map[*Delivery]int{}, returned: map[*Delivery][]*message.Message{}, snaps: map[*Delivery][]*message.Message{}}
 		h.sub = subs[t.Int(nSubs)]
 		h.pub = pubs[t.Int(nPubs)]
@@ -85,6 +87,7 @@ func c08Body(r *Run) {
 			h.passSelf[sm.UUID] = t.Chance(1, 4)
 			h.parkConsumed[sm.UUID] = t.Chance(1, 3)
 			h.reuseParked[sm.UUID] = t.Chance(1, 3)
+			h.detach[sm.UUID] = t.Chance(1, 2)
 		}
 		hs = append(hs, h)
 		r.Describe("%s: %s/%s -> %s/%s noPublisher=%v addOutputMiddleware=%v outputs=%v passSelf=%v", h.name, h.sub.Name, h.subTopic, h.pub.Name, h.pubTopic, h.noPub, h.addOut, h.outN, h.passSelf)
@@ -122,6 +125,10 @@ func c08Body(r *Run) {
 			if !h.noPub {
 				for k := 0; k < h.outN[msg.UUID]; k++ {
 					if k == 0 && h.passSelf[msg.UUID] {
+						if h.detach[msg.UUID] {
+							// passed on detached from the delivery's context (which the subscriber may cancel on Ack)
+							msg.SetContext(context.Background())
+						}
 						outs = append(outs, msg)
 						continue
 					}
